@@ -133,8 +133,8 @@ PROPS = {
         rule=("rapid-generated (image, irreversible configuration). Non-trivial: some declared step size exceeds 1 (quantiser active) and the image is not constant. Distinct = hash of the case. "
               "Label tightness>N% records how close the observed error came to the bound."),
         assumptions=COMMON_ASSUME + ["the rounding allowance 2 + 2^(P-13) covers single-precision arithmetic of the transform chain"],
-        quick=dict(shards=16, checks=600, extra=[], timeout=900),
-        thorough=dict(shards=16, checks=45000, extra=[], timeout=3400, fuzztime=180),
+        quick=dict(shards=16, checks=600, extra=[dict(run="TestBig", shards=8)], timeout=900),
+        thorough=dict(shards=16, checks=45000, extra=[dict(run="TestBig", shards=8)], timeout=3400, fuzztime=180),
     ),
     "C06": dict(
         pkg="c06", fuzz=dict(target="FuzzProp"),
@@ -179,7 +179,7 @@ PROPS = {
     "C10": dict(
         pkg="c10",
         technique="model-based property testing of call histories (rapid): generated sequences of Encode/Decode calls on the registered codecs and on reused jpeg2000.Encoder/Decoder objects, compared frame by frame with a fresh-call model",
-        level_text="Exploration: seeded rapid generators over the 14 registered transfer syntaxes x FrameInfo (BitsAllocated 8/16, 1 < BitsStored <= BitsAllocated within the syntax's precision, 1/3 samples) x histories (frame sequences with repeats, permutations and very different frames; reuse of one Encoder; one Decoder fed plain / MCT / no-MCT / ROI / Part-2 MCT streams in drawn order). Invariant: frame counts equal, output i equals the fresh single-frame result, inputs unchanged, decoded length = Rows*Cols*SPP*ceil(BA/8), lossless syntaxes reproduce the source.",
+        level_text="Exploration: seeded rapid generators over the 14 registered transfer syntaxes x FrameInfo (BitsAllocated 8/16, 1 < BitsStored <= BitsAllocated within the syntax's precision, 1/3 samples) x histories (frame sequences with repeats, permutations and very different frames; reuse of one Encoder; one Decoder fed plain / MCT / no-MCT / ROI / Part-2 MCT streams and streams of unrelated images in drawn order; unrelated calls with other geometry and explicit non-default parameters on the same registered codec in between). Invariant: frame counts equal, output i equals the fresh single-frame result, inputs unchanged, decoded length = Rows*Cols*SPP*ceil(BA/8), lossless syntaxes reproduce the source.",
         level_note="The model is the library itself called afresh on one frame, so systematic (history-independent) coding errors are out of scope here (C01-C07 cover them).",
         rule=("rapid-generated (syntax, FrameInfo, pool of frames, history of actions). Non-trivial: the pool holds >= 2 different frames and the history contains an object-reuse action or a sequence of length >= 2. Distinct = hash of the case."),
         assumptions=COMMON_ASSUME,
